@@ -33,7 +33,7 @@ def run(ctx):
            rule="one evaluation = one crash point = the real directory state before the k-th file-system call of a replacing operation; "
                 "all (operation, configuration, k) are distinct; each is classified OLD/NEW/ABSENT/OTHER against real bytes",
            states=st["states"], transitions=st["transitions"], traces_validated_against_impl=st["traces"],
-           runs=len(rows), operations=summ["ops"], skipped=summ.get("skipped", []), monitor_binding_drift=st["drift"], exhaustive=True)
+           runs=len(rows), operations=summ["ops"], skipped=summ.get("skipped", []), monitor_binding_drift=st["drift"], staged_protocol_inclusion=st.get("staged"), exhaustive=True)
     for r in rows[:3]:
         ev.sample({k: r[k] for k in ("op", "cfg", "n", "verdict")})
     ev.sample(sample)
